@@ -76,6 +76,11 @@ seq_t dtw_warping_paths{{ suffix }}{{ suffix2 }}(seq_t *wps,
                 return sqrt(p.max_dist);
             }
         }
+        {%- if "euclidean" != inner_dist %}
+        // The sqrt/pow round trip can make the bound an ulp smaller than the cost of
+        // the path it was computed from
+        p.max_dist *= (1 + 1e-14);
+        {%- endif %}
     }
     {%- endif %}
 
